@@ -102,47 +102,45 @@ Proof.
     subst v'. rewrite String.eqb_refl. exact Hrec.
 Qed.
 
-(* operations extracted from a history have distinct, increasing invocation positions and
-   respond after they are invoked *)
-Lemma find_res_ge : forall c h pos t v, find_res c pos h = Some (t, v) -> pos <= t.
+(* operations extracted from a history have distinct invocation positions and respond after they are invoked *)
+Definition ops_good (acc : list op * nat) : Prop :=
+  NoDup (map op_inv (fst acc)) /\
+  forall o, In o (fst acc) -> op_inv o < snd acc /\ own_ok o /\ (forall t v, op_res o = Some (t, v) -> t < snd acc).
+
+Lemma set_res_inv : forall c t v o, op_inv (set_res c t v o) = op_inv o.
+Proof. intros. unfold set_res. destruct (op_res o); [reflexivity|]. destruct (Nat.eqb (op_client o) c); reflexivity. Qed.
+
+Lemma ops_step_good : forall acc e, ops_good acc -> ops_good (ops_step acc e).
 Proof.
-  intros c h. induction h as [|e h IH]; intros pos t v H; cbn in H; [discriminate|].
-  destruct e as [c' m|c' v'].
-  - destruct (Nat.eqb c c'); [discriminate|]. apply IH in H. lia.
-  - destruct (Nat.eqb c c'); [inversion H; lia|]. apply IH in H. lia.
+  intros [ops pos] e [Hnd Hall]. cbn [fst snd] in *. destruct e as [c m|c v]; unfold ops_good, ops_step; cbn [fst snd].
+  - split.
+    + rewrite map_app. cbn. apply NoDup_snoc; [exact Hnd|]. intros Hin. apply in_map_iff in Hin.
+      destruct Hin as (o & Ho & Hin). destruct (Hall o Hin) as (H & _). lia.
+    + intros o Hin. apply in_app_or in Hin. destruct Hin as [Hin|[<-|[]]].
+      * destruct (Hall o Hin) as (H1 & H2 & H3). split; [lia|]. split; [exact H2|]. intros t v0 E. specialize (H3 t v0 E). lia.
+      * cbn. split; [lia|]. split; [exact I | intros; discriminate].
+  - split.
+    + rewrite map_map. erewrite map_ext; [exact Hnd|]. intros o. apply set_res_inv.
+    + intros o Hin. apply in_map_iff in Hin. destruct Hin as (o0 & <- & Hin). destruct (Hall o0 Hin) as (H1 & H2 & H3).
+      rewrite set_res_inv. split; [lia|]. unfold set_res, own_ok in *. destruct (op_res o0) as [[t0 v0]|] eqn:E.
+      * rewrite E. split; [exact H2|]. intros t v1 E1. inversion E1; subst. specialize (H3 t v1 eq_refl). lia.
+      * destruct (Nat.eqb (op_client o0) c); cbn.
+        -- split; [lia|]. intros t v1 E1. inversion E1; subst. lia.
+        -- rewrite E. split; [exact I | intros; discriminate].
 Qed.
 
-Lemma ops_from_inv_ge : forall h pos o, In o (ops_from pos h) -> pos <= op_inv o.
-Proof.
-  induction h as [|e h IH]; intros pos o H; cbn in H; [destruct H|].
-  destruct e as [c m|c v].
-  - destruct H as [<-|H]; [cbn; lia|]. apply IH in H. lia.
-  - apply IH in H. lia.
-Qed.
+Lemma ops_fold_good : forall h acc, ops_good acc -> ops_good (fold_left ops_step h acc).
+Proof. induction h as [|e h IH]; intros acc H; cbn; [exact H | apply IH; apply ops_step_good; exact H]. Qed.
 
-Lemma ops_from_NoDup : forall h pos, NoDup (map op_inv (ops_from pos h)).
-Proof.
-  induction h as [|e h IH]; intros pos; cbn; [constructor|].
-  destruct e as [c m|c v]; [|apply IH].
-  cbn. constructor; [|apply IH].
-  intros Hin. apply in_map_iff in Hin. destruct Hin as (o & Ho & Hin). apply ops_from_inv_ge in Hin. lia.
-Qed.
-
-Lemma ops_from_own_ok : forall h pos o, In o (ops_from pos h) -> own_ok o.
-Proof.
-  induction h as [|e h IH]; intros pos o H; cbn in H; [destruct H|].
-  destruct e as [c m|c v]; [|eapply IH; exact H].
-  destruct H as [<-|H]; [|eapply IH; exact H].
-  unfold own_ok. cbn. destruct (find_res c (S pos) h) as [[t v]|] eqn:E; [|exact I].
-  apply find_res_ge in E. lia.
-Qed.
+Lemma ops_of_good : forall h, ops_good (fold_left ops_step h ([], 0)).
+Proof. intros h. apply ops_fold_good. split; [constructor | intros o []]. Qed.
 
 Lemma lin_complete_lemma : forall h, linearizable h -> linearizable_b h = true.
 Proof.
   intros h (l & (Hndl & Hsub & Hall) & Hrt & Hseq). unfold linearizable_b.
+  destruct (ops_of_good h) as [Hnd0 Hall0].
   apply (lin_search_complete l); auto.
-  - apply ops_from_NoDup.
-  - intros o Ho. eapply ops_from_own_ok. exact Ho.
+  intros o Ho. apply (Hall0 o Ho).
 Qed.
 
 (* ------------------------------------------------------------------ refutation witnesses *)
